@@ -516,9 +516,11 @@ PROPS = {
         "level_prefix": "Partial proof -- contracts discharged without bound on the mechanisms named below, not the whole statement (bounded stand-ins and what is left out are listed): ",
         "units": ["nsecchain"],
         "vx_search": {"bin": "c13_search_small_zones", "crate": "replay_sign", "release": True,
-                      "what": "2048 zones (apex plus every subset of ten owner names: ordinary names, a wildcard, an insecure and a secure "
-                              "delegation, glue and deeper names below them, a delegation point that also holds an A record, names that "
-                              "create empty non-terminals, names outside the zone; both DNSKEY settings) through generate_nsecs and "
+                      "what": "4096 zones (apex plus every subset of eleven owner names: ordinary names, a wildcard, an insecure delegation that "
+                              "also holds a TXT record, a secure delegation whose zone file also carries the child's SOA, glue and deeper "
+                              "names below them, a delegation point that also holds an A record and is written in upper case, names that "
+                              "create empty non-terminals below the apex and below a name that owns records, names outside the zone; both "
+                              "DNSKEY settings; NSEC3 owner labels compared with an independent iterated SHA-1 / Base32hex computation) through generate_nsecs and "
                               "generate_nsec3s (no opt-out): against an independent declarative description -- one NSEC per owner name in "
                               "the zone not below a delegation point, canonical order, next pointers closing at the apex, exact bitmaps, TTL "
                               "and class; one NSEC3 per such name and per empty non-terminal, sorted by hash, next hashed owner closing the "
